@@ -10,7 +10,7 @@ from ..core import Ctx
 from ..effects import STORAGE_READS
 from ..flow import ALL, find_path, names_in
 from ..model import AnalysisError, FunctionInfo, dotted, norm_text
-from .common import (facts_at, known_null_call, edge_target, guarded_names, handler_exits, handler_nodes, hint_value, in_handler, kwarg, path_arg,
+from .common import (facts_at, package_functions, resolve_value, known_null_call, edge_target, guarded_names, handler_exits, handler_nodes, hint_value, in_handler, kwarg, path_arg,
                      reachable_from, try_body_calls)
 
 EXPLANATION = (
@@ -171,30 +171,43 @@ def r1(ctx: Ctx) -> None:
     from .c03 import metadata_regex, regex_first_literal_and_anchors
     pat = metadata_regex(ctx)
     first, a0, a1 = regex_first_literal_and_anchors(pat)
+    def _pair(v: Optional[ast.AST]) -> Optional[List[ast.AST]]:
+        """(version, name) as a tuple display or as the two positional fields of a tuple-like record class of the package"""
+        if isinstance(v, ast.Tuple) and len(v.elts) == 2:
+            return list(v.elts)
+        if isinstance(v, ast.Call) and len(v.args) == 2 and not v.keywords:
+            d = dotted(v.func)
+            ci = next((c for c in ctx.prog.classes.values() if c.module is f.module and c.name == d), None) if d else None
+            if ci is not None and (ci.is_dataclass or any(b.rsplit(".", 1)[-1] == "NamedTuple" for b in ci.base_names)):
+                return list(v.args)
+        return None
+
     for r in [n for n in g.nodes if n.kind == "return" and n.id in reach]:
-        v = r.ast.value  # type: ignore[union-attr]
-        if v is None or (isinstance(v, ast.Constant) and v.value is None):
-            continue
-        if not (isinstance(v, ast.Tuple) and len(v.elts) == 2):
-            ctx.ob("C10.R1", f, "result is a (version, name) pair", r, False, "unexpected return shape")
-            continue
-        name = v.elts[1]
-        ok = False
-        why = ""
-        folded = _fold_digits(ctx, f, name, r.id)
-        if folded is not None:
-            ok = re.match(pat, folded) is not None
-            why = f"legacy digits -> {folded!r} matches the regex"
-        elif isinstance(name, ast.Name):
-            rd = ctx.rd(f)
-            for pol, e, at in facts_at(ctx, f, r):
-                if pol in ("true", "nonnull") and isinstance(e, ast.Call) and isinstance(e.func, ast.Attribute) \
-                        and e.func.attr in ("match", "fullmatch") and "_METADATA_FILE_RE" in norm_text(e.func.value) \
-                        and e.args and isinstance(e.args[0], ast.Name) and e.args[0].id == name.id \
-                        and rd.reaching(at, name.id) == rd.reaching(r.id, name.id):
-                    ok = True
-                    why = "returned under a successful match of the anchored regex"
-        ctx.ob("C10.R1", f, "returned name is in the metadata-file language", r, ok and a0 and a1, why or "name not validated")
+        for v, sat in resolve_value(ctx, f, r.ast.value, r.id):  # type: ignore[union-attr]
+            if v is None or (isinstance(v, ast.Constant) and v.value is None):
+                continue
+            at = g.nodes[sat]
+            pair = _pair(v)
+            if pair is None:
+                ctx.ob("C10.R1", f, "result is a (version, name) pair", r, False, "unexpected return shape")
+                continue
+            name = pair[1]
+            ok = False
+            why = ""
+            folded = _fold_digits(ctx, f, name, at.id)
+            if folded is not None:
+                ok = re.match(pat, folded) is not None
+                why = f"legacy digits -> {folded!r} matches the regex"
+            elif isinstance(name, ast.Name):
+                rd = ctx.rd(f)
+                for pol, e, fat in facts_at(ctx, f, at):
+                    if pol in ("true", "nonnull") and isinstance(e, ast.Call) and isinstance(e.func, ast.Attribute) \
+                            and e.func.attr in ("match", "fullmatch") and "_METADATA_FILE_RE" in norm_text(e.func.value) \
+                            and e.args and isinstance(e.args[0], ast.Name) and e.args[0].id == name.id \
+                            and rd.reaching(fat, name.id) == rd.reaching(at.id, name.id):
+                        ok = True
+                        why = "returned under a successful match of the anchored regex"
+            ctx.ob("C10.R1", f, "returned name is in the metadata-file language", at, ok and a0 and a1, why or "name not validated")
 
 
 def r2(ctx: Ctx) -> None:
@@ -204,6 +217,8 @@ def r2(ctx: Ctx) -> None:
     sl = ctx.slicer(f)
     rets = [n for n in g.nodes if n.kind == "return" and n.id in g.reachable()]
     hint_calls = [n for n in g.calls() if any(t.name == "_read_version_hint" for t in ctx.eff.callees(f, n))]
+    if not hint_calls:  # the pointer is read and parsed in place
+        hint_calls = [n for n in g.calls() if any(t.name == "_parse_hint_content" for t in ctx.eff.callees(f, n))]
     rec_calls = [n for n in g.calls() if any(t.name == "_recover_version_from_files" for t in ctx.eff.callees(f, n))]
     if not hint_calls or not rec_calls:
         raise AnalysisError("_current_version_info anchors vanished")
@@ -223,6 +238,12 @@ def r2(ctx: Ctx) -> None:
             po = sl.origins(path_arg(call), call.id)
             names_hint = hint_calls[0].ast in po["calls"]
             if t is not None and r.id in reachable_from(g, t, NORMAL) and (fl is None or r.id not in reachable_from(g, fl, NORMAL)) and names_hint:
+                ok = True
+        for pol, e, _at in facts_at(ctx, f, r):  # the existence test kept in a flag / conjunction
+            if pol != "true" or not isinstance(e, ast.Call):
+                continue
+            call = next((c for c in g.calls() if c.ast is e and ctx.eff.storage_op(c) == "exists"), None)
+            if call is not None and hint_calls[0].ast in sl.origins(path_arg(call), call.id)["calls"]:
                 ok = True
         ctx.ob("C10.R2", f, "hinted pair returned only if its file exists", r, ok,
                "a pointer naming a missing file (stale / foreign) is ignored and recovery runs")
@@ -327,9 +348,8 @@ def r5(ctx: Ctx) -> None:
 def r11(ctx: Ctx, rid: str = "C10.R11") -> None:
     ctx.rule(rid, "versions are ordered as integers: the version group captured by the metadata-file regex is used only as the "
              "direct argument of int() (or in messages) - never stored, compared or max()-ed as text ('v9' > 'v10')", 2)
-    mm = ctx.prog.cls(MM)
     n_sites = 0
-    for m in mm.methods.values():
+    for m in sorted((x for x in package_functions(ctx, ["metadata_manager"]) if x.parent is None), key=lambda x: x.qname):
         parents = {}
         for p in ast.walk(m.node):
             for c in ast.iter_child_nodes(p):
